@@ -606,7 +606,89 @@ def c12_14(ctx):
     return shared_obligations(ctx, ["taproot", "pecc", "witness", "phash"], "the result would depend on something other than the arguments and the object's current state")
 
 
+def c12_15(ctx):
+    """the bytes a tapleaf hash commits to are the script's serialisation: the push-length encoding of Script.raw_serialize tiles
+    [0, 520] without a gap and in minimal form (shared with C04.1) -- a 75-byte push written as PUSHDATA1 changes the leaf hash, the
+    merkle root and the output key"""
+    from rules.C04 import c04_1
+    return c04_1(ctx)
+
+
+def c12_16(ctx):
+    """control_block() of a tree's root hands out a control block for every leaf of the tree, and for nothing else: cell evaluation of
+    TapLeaf.control_block (leaf argument omitted / the leaf itself / an equal leaf / another leaf) and TapBranch.control_block (each of its
+    leaves / a foreign leaf) with hashing and tweaking as stand-ins"""
+    from sa.cells import Evaluator, Obj, Raised, Undecided
+    out = []
+
+    def script(tag):
+        return Obj("script", "Script", {"commands": [tag]})
+
+    def leaf(tag):
+        return Obj("taproot", "TapLeaf", {"tap_script": script(tag), "tapleaf_version": 0xC0})
+    hooks = {("TapLeaf", "hash"): lambda o: b"L" + bytes([o.attrs["tap_script"].attrs["commands"][0]]) * 31,
+             ("TapBranch", "hash"): lambda o: b"B" * 32,
+             ("S256Point", "tweaked_key"): lambda p, *a, **k: Obj("pecc", "S256Point", {"parity": 1, "tweak": a}),
+             ("ControlBlock", "__init__"): lambda o, v, parity, ipk, hashes: o.attrs.update({"v": v, "parity": parity, "ipk": ipk, "hashes": hashes}),
+             ("Script", "__eq__"): lambda a, b: isinstance(b, Obj) and a.attrs.get("commands") == b.attrs.get("commands")}
+    ipk = Obj("pecc", "S256Point", {"id": 1})
+    a, a2, b, c = leaf(1), leaf(1), leaf(2), leaf(3)
+    spec = "taproot:TapLeaf.control_block"
+    mod, fn = rl.get(ctx, spec)
+    cases = [("the leaf argument omitted", [ipk], True), ("the leaf itself", [ipk, a], True), ("an equal leaf (same script and version)", [ipk, a2], True), ("another leaf", [ipk, b], False)]
+    bad = None
+    for label, args, want in cases:
+        ctx.count("cells")
+        try:
+            r = Evaluator(ctx.repo, method_hooks=hooks).call(spec, args, self_obj=a)
+        except Raised as x:
+            r = "raises %s" % x.name
+        except Undecided as u:
+            out.append(ctx.err(spec, "not evaluable for %s: %s" % (label, u), fn, mod))
+            bad = "undecided"
+            break
+        got = isinstance(r, Obj) and r.cls == "ControlBlock"
+        if got != want:
+            bad = (label, r)
+            break
+    if bad is None:
+        out.append(ctx.ok(spec, "a single-leaf tree hands out its control block with the leaf omitted, given, or given as an equal leaf; None for another leaf", fn, mod, key="cb-leaf"))
+    elif bad != "undecided":
+        out.append(ctx.bad(spec, "single-leaf tree, control_block() with %s returns %s: %s" % (bad[0], "a control block" if isinstance(bad[1], Obj) else bad[1],
+                           "the only leaf of the tree cannot be spent by script path through this call" if not isinstance(bad[1], Obj) else "a control block is handed out for a script "
+                           "that is not in the tree"), fn, mod, key="cb-leaf"))
+    spec = "taproot:TapBranch.control_block"
+    mod, fn = rl.get(ctx, spec)
+    inner = Obj("taproot", "TapBranch", {"left": a, "right": b, "_leaves": None})
+    root = Obj("taproot", "TapBranch", {"left": inner, "right": c, "_leaves": None})
+    bad = None
+    for label, lf, want, depth in (("its first leaf", a, True, 2), ("its second leaf", b, True, 2), ("its third leaf", c, True, 1), ("an equal copy of its first leaf", a2, True, 2),
+                                   ("a leaf that is not in the tree", leaf(9), False, 0)):
+        ctx.count("cells")
+        try:
+            r = Evaluator(ctx.repo, method_hooks=hooks).call(spec, [ipk, lf], self_obj=root)
+        except Raised as x:
+            r = "raises %s" % x.name
+        except Undecided as u:
+            out.append(ctx.err(spec, "not evaluable for %s: %s" % (label, u), fn, mod))
+            bad = "undecided"
+            break
+        got = isinstance(r, Obj) and r.cls == "ControlBlock"
+        if got != want or (got and (not isinstance(r.attrs.get("hashes"), list) or len(r.attrs["hashes"]) != depth)):
+            bad = (label, r, depth)
+            break
+    if bad is None:
+        out.append(ctx.ok(spec, "a three-leaf tree hands out a control block with a path of the leaf's depth for each of its leaves, None for a foreign leaf", fn, mod, key="cb-branch"))
+    elif bad != "undecided":
+        out.append(ctx.bad(spec, "three-leaf tree, control_block() for %s returns %s (expected %s)" % (
+            bad[0], ("a control block with path %r" % (bad[1].attrs.get("hashes"),))[:80] if isinstance(bad[1], Obj) else bad[1],
+            "a control block with %d path hashes" % bad[2] if bad[2] else "None"), fn, mod, key="cb-branch"))
+    return out
+
+
 OBLIGATIONS = [
+    ("C12.15", "RANGE partition (shared C04.1)", c12_15),
+    ("C12.16", "CELLS control block", c12_16),
     ("C12.14", "SHARED", c12_14),
     ("C12.13", "SET-ORDER", c12_13),
     ("C12.12", "MEMO", c12_12),
